@@ -54,9 +54,32 @@ pub fn check(st: &mut Stats, c: &C) {
                 }
                 Err(e) => st.fail("C19/accepted-picture-does-not-render", format!("picture {:?}: {}", p, e)),
             }
+            // name tokens: the selected style must hold for every month and every weekday, not just the probe's
+            if toks.iter().any(|t| matches!(t, Tok::Mon(_) | Tok::Month(_) | Tok::Day(_) | Tok::Dy(_))) {
+                for &(m, d) in NAME_PROBES.iter() {
+                    let v = V::Ts(2021, m, d, 17, 6, 8, 912_345);
+                    st.op(Op::F_format);
+                    match v.to_lib().unwrap().format_with(f) {
+                        Ok(text) => {
+                            if !texts_agree(&text, &v, toks) {
+                                let exp = render(&v, toks).unwrap_or_default();
+                                st.fail("C19/name-style-differs", format!("picture {:?} for {}: rendered {:?}, reference {:?}", p, v.show(), trunc(&text), trunc(&exp)));
+                                break;
+                            }
+                        }
+                        Err(e) => {
+                            st.fail("C19/accepted-picture-does-not-render", format!("picture {:?} for {}: {}", p, v.show(), e));
+                            break;
+                        }
+                    }
+                }
+            }
         }
     }
 }
+
+/// one date per month of 2021, together covering all seven weekdays (Sun, Mon, ..., Sat, Sun, ...)
+pub const NAME_PROBES: [(u32, u32); 12] = [(1, 3), (2, 1), (3, 2), (4, 7), (5, 6), (6, 4), (7, 3), (8, 8), (9, 6), (10, 5), (11, 10), (12, 9)];
 
 fn trunc(s: &str) -> String {
     if s.len() > 120 {
@@ -100,6 +123,10 @@ fn random_case(rng: &mut Rng, s: &str) -> String {
 }
 
 pub fn run(ctx: &Ctx, st: &mut Stats) {
+    for (i, &(m, d)) in NAME_PROBES.iter().enumerate() {
+        let n = crate::cal::days_from_civil(2021, m as i64, d as i64);
+        assert_eq!(crate::cal::weekday_sun0(n) as usize, i % 7, "NAME_PROBES must walk through the weekdays");
+    }
     // 1. every string up to length L over the alphabet
     let maxlen = ctx.tier.pick(2, 4, 5);
     let a = ALPHABET.len() as i64;
